@@ -468,11 +468,14 @@ func fanoutFamily(budget time.Duration) mc.Family {
 		{"closepath", []byte{9}},
 		{"nothing", nil},
 		{"number left on the stack", csNum(7)},
+		// long straight-line bodies: the work of a call is the length of what it runs
+		{"30000 closepath operators", bytes.Repeat([]byte{9}, 30000)},
+		{"15000 dotsection operators", bytes.Repeat([]byte{12, 0}, 15000)},
 	}
 	n := len(ks) * len(depths) * len(leaves)
 	return mc.Family{
 		Name: "charstring-call-fan-out", Items: n, Budget: budget, HangSeconds: 60,
-		Rule: fmt.Sprintf("a glyph that calls a subroutine which calls the next one k times, d levels deep (k in %v, d in %v: up to 100^10 leaf executions from under 3 KiB), the innermost doing one of %d things (a line, a curve, a hint, a move, closepath, nothing, leaving a number); through type1.Read; oracle as everywhere in C01: returns (a font or an error) within the watchdog and under the memory cap; non-trivial = all", ks, depths, len(leaves)),
+		Rule: fmt.Sprintf("a glyph that calls a subroutine which calls the next one k times, d levels deep (k in %v, d in %v: up to 100^10 leaf executions from under 3 KiB), the innermost doing one of %d things (a line, a curve, a hint, a move, closepath, nothing, leaving a number, 30,000 / 15,000 operators in a row); through type1.Read; oracle as everywhere in C01: returns (a font or an error) within the watchdog and under the memory cap; non-trivial = all", ks, depths, len(leaves)),
 		Body: func(c *mc.Ctx, item int) mc.Verdict {
 			k := ks[item%len(ks)]
 			d := depths[(item/len(ks))%len(depths)]
@@ -898,6 +901,57 @@ func deepNestingFamily(tier string, budget time.Duration) mc.Family {
 	}
 }
 
+// aliasFamily: names whose value is an executable name (taken out of a
+// procedure body), bound in cycles of length 1..4 and executed in every
+// context: each round of such a chain is an operation like any other.
+func aliasFamily(budget time.Duration) mc.Family {
+	var defs []string
+	for n := 1; n <= 4; n++ {
+		var sb strings.Builder
+		for i := 0; i < n; i++ {
+			fmt.Fprintf(&sb, "/n%d {n%d} 0 get def ", i, (i+1)%n)
+		}
+		defs = append(defs, sb.String())
+	}
+	defs = append(defs, "/n0 {n1} 0 get def /n1 {n0 n0} def ", "/n0 {n0} 0 get def /n1 {n0} def ", "userdict /n0 {n0} 0 get put systemdict /n1 {n0} 0 get put ", "/n0 {n1} 0 get def /n1 {n2} 0 get def /n2 {add} 0 get def 1 2 ")
+	uses := []string{"n0", "{n0} exec", "/n0 load exec", "n1", "true {n0} if", "0 1 3 {pop n0} for", "[1 2] {pop n0} forall", "{n0} loop", "2 {n0} repeat", "{n0} bind exec", "errordict /undefined {n0} put zzz", "n0 n0"}
+	through := []string{"interpreter, budget 1000", "interpreter, budget 3000000", "ReadCMap", "type1.Read"}
+	n := len(defs) * len(uses) * len(through)
+	return mc.Family{
+		Name: "name-alias-cycles", Items: n, Budget: budget, HangSeconds: 60,
+		Rule: fmt.Sprintf("%d sets of definitions whose values are executable names (cycles of 1..4 names, a cycle through a procedure, chains that end in an operator) x %d ways of executing one of them x {interpreter with budgets of 1000 and 3,000,000 operations, ReadCMap, type1.Read}; oracle as everywhere in C01; non-trivial = all", len(defs), len(uses)),
+		Body: func(c *mc.Ctx, item int) mc.Verdict {
+			prog := defs[item%len(defs)] + uses[(item/len(defs))%len(uses)]
+			how := item / len(defs) / len(uses)
+			var err error
+			switch how {
+			case 0, 1:
+				intp := postscript.NewInterpreter()
+				intp.MaxOps = 1000
+				if how == 1 {
+					intp.MaxOps = 3000000
+				}
+				err = intp.ExecuteString(prog)
+			case 2:
+				_, err = postscript.ReadCMap(strings.NewReader("%!PS-Adobe-3.0 Resource-CMap\n" + prog))
+			case 3:
+				_, err = type1.Read(strings.NewReader("%!PS-AdobeFont-1.0: T 1\n" + prog))
+			}
+			c.Step()
+			out := errClass(err)
+			v := mc.Pass(out, true)
+			if c.Render() {
+				v.Render = fmt.Sprintf("`%s` through %s → %s", prog, through[how], out)
+			}
+			return v
+		},
+		Describe: func(item int) string {
+			return fmt.Sprintf("`%s%s` through %s", defs[item%len(defs)], uses[(item/len(defs))%len(uses)], through[item/len(defs)/len(uses)])
+		},
+		CrashKey: func(item int) string { return "C01:crash:name-alias-cycles:" + uses[(item/len(defs))%len(uses)] },
+	}
+}
+
 // ---------------------------------------------------------------------------
 // CMap reader
 
@@ -1009,6 +1063,7 @@ func main() {
 				afmFamily(afmLen, budget),
 				cmapFamily(budget),
 				deepNestingFamily(tier, budget),
+				aliasFamily(budget),
 			)
 			return fams
 		},
